@@ -787,7 +787,7 @@ func (m *Memory) checkGc() {
 			i := 0
 
 			// go 1 by 1 and delete stuff
-			for id := m.nextId.Load() - uint64(m.Cfg.MaxRecords); id > 0; id-- {
+			for id := m.nextId.Load() - uint64(m.Cfg.MaxRecords) - 1; id > 0; id-- {
 				i++
 
 				// time
